@@ -35,8 +35,9 @@ Proof. vm_compute. reflexivity. Qed.
 Lemma budget_is_constant : own_budget_observed = own_budget_const.
 Proof. vm_compute. reflexivity. Qed.
 
-(* the slots in which parsed trees share an object are not slots a release goes on into *)
-Lemma shared_slots_not_released : shared_not_descended own_shared own_descend = true.
+(* where parsed trees store one object in several slots, a release goes on into at most one of them
+   (so it meets the object once) *)
+Lemma shared_slots_not_released : shared_reached_once own_shared_groups own_descend = true.
 Proof. vm_compute. reflexivity. Qed.
 
 (* no result handed to a caller was observed to alias a buffer the library writes later (or vice versa) *)
